@@ -256,12 +256,23 @@ func runC09(c *kernel.Ctx) {
 			huge := []string{"0", "1000000", "50000000", "9223372036854775807", "99999999999999999999", "4294967296"}[t.Choose(6)]
 			opt := []string{"last", "ttl", "from", "until", "me"}[t.Choose(5)]
 			topic := fmt.Sprintf("%s/canary/?%s=%s", key, opt, huge)
+			what = "extreme-option " + opt + "=" + huge
+			if t.Chance(1, 2) {
+				// option lists that are not well formed: 1-4 fragments joined by '&'
+				frags := []string{"ttl=42", "last=3", "abc", "=", "a=", "=b", "a==b", "", "x=1=2", "me", "ttl=", "&", "?"}
+				var parts []string
+				for n := t.Range(1, 4); n > 0; n-- {
+					parts = append(parts, frags[t.Choose(len(frags))])
+				}
+				topic = fmt.Sprintf("%s/canary/?%s", key, strings.Join(parts, "&"))
+				what = fmt.Sprintf("malformed-options %q", strings.Join(parts, "&"))
+			}
 			if t.Chance(1, 2) {
 				a.Send(a.Subscribe(topic))
 			} else {
 				a.Send(a.Publish(topic, []byte("x"), t.Chance(1, 2), false))
 			}
-			injected, what = len(topic)+8, "extreme-option "+opt+"="+huge
+			injected = len(topic) + 8
 		case 6: // extreme JSON requests
 			a := attacker()
 			body := []string{
